@@ -2,9 +2,20 @@
 kind x where the attribute is looked up x where it is called x owner-loop state; bursts for ordering.
 The Lean model predicts the action; the harness observes where the body ran and what the caller saw."""
 import asyncio
+import functools
 import logging
 import threading
 import time
+
+
+def _sync_around_async(fn):
+    """a bookkeeping decorator as found in application code: an ordinary function (functools.wraps keeps `__wrapped__`
+    pointing at the `async def`) that does synchronous work on the object and hands back the coroutine"""
+    @functools.wraps(fn)
+    def wrapper(self, tag):
+        self._rec(tag)
+        return fn(self, tag)
+    return wrapper
 
 
 class Obj:
@@ -39,6 +50,11 @@ class Obj:
     async def coro(self, tag):
         self._rec(tag)
         await asyncio.sleep(0)
+        return ("ret", tag)
+
+    @_sync_around_async
+    async def plain_deco(self, tag):
+        """a plain (non-coroutine) method as far as the proxy is concerned: it returns a value (a coroutine object)"""
         return ("ret", tag)
 
     async def coro_raise(self, tag):
@@ -111,6 +127,74 @@ async def stopping_scenario(n_long, n_cleanup, order_seed, immediate=False):
             thread.force_stop()
         except Exception:  # noqa: BLE001
             pass
+
+
+async def paused_scenario(started_before):
+    """the owner's loop exists and is not closed, but is not running at the moment of the calls (not started yet, or between two
+    `run_until_complete` / `run_forever` stretches): calls from another loop are queued and run on the owner's thread once it runs
+    again; coroutine callers get their result / exception.  Returns observation rows."""
+    import bellows.thread as th
+
+    owner_loop = asyncio.new_event_loop()
+    paused, resume = threading.Event(), threading.Event()
+    info = {}
+
+    def owner_main():
+        info["tid"] = threading.get_ident()
+        asyncio.set_event_loop(owner_loop)
+        if started_before:
+            owner_loop.run_until_complete(asyncio.sleep(0))   # a first stretch, then the loop is idle (alive, not running)
+        paused.set()
+        resume.wait(10)
+        owner_loop.run_forever()
+
+    t = threading.Thread(target=owner_main, daemon=True)
+    t.start()
+    main = asyncio.get_running_loop()
+    await main.run_in_executor(None, paused.wait, 10)
+    obj = Obj()
+    proxy = th.ThreadsafeProxy(obj, owner_loop)
+    errors_on_owner = []
+    owner_loop.set_exception_handler(lambda l, c: errors_on_owner.append(type(c.get("exception")).__name__))
+    rows = []
+    got = {}
+    try:
+        for tag, kind in ((1, "plain"), (2, "coro"), (3, "coro_raise"), (4, "plain")):
+            try:
+                got[tag] = (kind, getattr(proxy, kind)(tag))
+            except Exception as e:  # noqa: BLE001
+                got[tag] = (kind, ("callraised", type(e).__name__))
+        resume.set()
+        for tag, (kind, r) in got.items():
+            if asyncio.isfuture(r):
+                try:
+                    seen = ("value", (await asyncio.wait_for(r, 5))[1])
+                except ValueError as e:
+                    seen = ("raised", e.args[0])
+                except asyncio.TimeoutError:
+                    seen = ("hang", "")
+                except Exception as e:  # noqa: BLE001
+                    seen = ("error", type(e).__name__)
+            elif isinstance(r, tuple):
+                seen = r
+            else:
+                seen = ("plainret", r)
+            got[tag] = (kind, seen)
+        fut = asyncio.run_coroutine_threadsafe(asyncio.sleep(0.02), owner_loop)
+        await asyncio.wait_for(asyncio.wrap_future(fut), 5)
+        for tag, (kind, seen) in got.items():
+            ran = [c for c in obj.calls if c[0] == tag]
+            where = "none" if not ran else ("owner" if ran[0][1] == info["tid"] and ran[0][2] == id(owner_loop) else "elsewhere")
+            rows.append((kind, tag, f"ran={where} saw={seen[0]}:{seen[1]}"))
+        order = [c[0] for c in obj.calls if c[0] in (1, 4)]
+        rows.append(("order", 0, "fifo" if order == [1, 4] else f"order:{order}"))
+    finally:
+        resume.set()
+        owner_loop.call_soon_threadsafe(owner_loop.stop)
+        await main.run_in_executor(None, t.join, 5)
+        if not t.is_alive():
+            owner_loop.close()
+    return rows
 
 
 async def scenario(ctx_rows, burst):
@@ -196,7 +280,7 @@ async def scenario(ctx_rows, burst):
         errors_on_owner.clear()
 
     try:
-        for kind in ("attr", "plain", "plain_ret", "plain_zero", "plain_empty", "coro", "coro_raise"):
+        for kind in ("attr", "plain", "plain_ret", "plain_zero", "plain_empty", "plain_deco", "coro", "coro_raise"):
             for lookup in ("main", "owner"):
                 for caller in ("main", "owner"):
                     await one(kind, lookup, caller)
@@ -268,7 +352,7 @@ def expect(kind, caller, closed, action):
             return "ran=owner/owner saw=plainret:0 owner_err=0"
         if kind == "plain_empty":
             return "ran=owner/owner saw=plainret: owner_err=0"
-        if kind == "coro":
+        if kind in ("coro", "plain_deco"):
             return "ran=owner/owner saw=value:" + "TAG" + " owner_err=0"
         return "ran=owner/owner saw=raised:TAG owner_err=0"
     if action == "owner-queue":
@@ -291,7 +375,7 @@ def run(ctx):
         for kind, lookup, caller, closed, obs in rows:
             if kind in ("burst", "mixedburst"):
                 continue
-            mk = {"attr": "attr", "plain": "plain", "plain_ret": "plain", "plain_zero": "plain", "plain_empty": "plain", "coro": "coro", "coro_raise": "coro"}[kind]
+            mk = {"attr": "attr", "plain": "plain", "plain_ret": "plain", "plain_zero": "plain", "plain_empty": "plain", "plain_deco": "plain", "coro": "coro", "coro_raise": "coro"}[kind]
             lines.append(f"c20 {mk} {1 if caller == 'owner' else 0} {closed}")
     model = ctx.driver(lines)
     k = 0
@@ -331,9 +415,9 @@ def run(ctx):
                     bad = f"coroutine result not relayed to the caller: {obs}"
                 if kind == "coro_raise" and "saw=raised:" not in obs:
                     bad = f"coroutine exception not relayed to the caller: {obs}"
-                if kind in ("plain", "plain_ret", "plain_zero", "plain_empty") and caller == "main" and "saw=plainret:None" not in obs:
+                if kind in ("plain", "plain_ret", "plain_zero", "plain_empty", "plain_deco") and caller == "main" and "saw=plainret:None" not in obs:
                     bad = f"plain call from another loop returned something to the caller: {obs}"
-                if kind in ("plain_ret", "plain_zero", "plain_empty") and caller == "main" and "owner_err=1" not in obs:
+                if kind in ("plain_ret", "plain_zero", "plain_empty", "plain_deco") and caller == "main" and "owner_err=1" not in obs:
                     bad = f"a plain method returning a value through the proxy was not reported as an error on the owner: {obs}"
             if bad:
                 ctx.violation(bad, {"kind": "proxy", "method": kind, "lookup": lookup, "caller": caller}, {"kind": kind, "lookup": lookup, "caller": caller, "closed": closed, "obs": obs})
@@ -342,6 +426,19 @@ def run(ctx):
                 got = re.sub(r"(value|raised):\d+", r"\1:TAG", obs)
                 if want != got:
                     ctx.corr_diff(f"proxy behaviour differs for {kind} (lookup {lookup}, caller {caller}, closed {closed})", {"kind": kind, "lookup": lookup, "caller": caller}, got, f"{action} => {want}")
+    # owner loop alive but not running at the moment of the calls
+    for started_before in (False, True):
+        for _ in range(ctx.n(2, 6)):
+            rows = asyncio.run(paused_scenario(started_before))
+            for kind, tag, obs in rows:
+                ctx.cov["evaluations"] += 1
+                ctx.cov["distinct_nontrivial"] += 1
+                ctx.count("paused-owner:" + kind)
+                want = {"plain": "ran=owner saw=plainret:None", "coro": f"ran=owner saw=value:{tag}", "coro_raise": f"ran=owner saw=raised:{tag}", "order": "fifo"}[kind]
+                if obs != want:
+                    ctx.violation(f"owner loop alive but not running ({'between two runs' if started_before else 'not started yet'}) when a {kind} call was made from another loop: "
+                                  f"expected the call to run on the owner's loop and thread once it runs and the outcome to be relayed ({want}), got {obs}",
+                                  {"kind": "paused"}, {"kind": "paused", "started_before": started_before})
     # owner loop stopping with a burst of coroutine calls in flight
     for (nl, nc) in [(1, 0), (0, 1), (1, 1), (2, 2), (3, 1), (1, 3)] + ([(4, 4), (0, 5), (5, 0)] if ctx.tier == "thorough" else []):
         for seed in range(ctx.n(4, 12)):
@@ -377,6 +474,13 @@ def replay(ctx, obj):
         kinds, started, outcomes, stopped = asyncio.run(stopping_scenario(r["n_long"], r["n_cleanup"], r["seed"], r.get("immediate", False)))
         bad = [o for o in outcomes if o.endswith("HANG")] or (not stopped)
         print(f"replay stopping burst {kinds}: {outcomes} stopped={stopped}: {'FAILS' if bad else 'ok'}")
+        if bad:
+            print(f"VIOLATION property={ctx.pid} replay=replay")
+        return 1 if bad else 0
+    if r.get("kind") == "paused":
+        rows = asyncio.run(paused_scenario(r["started_before"]))
+        bad = [x for x in rows if "ran=owner" not in x[2] and x[0] != "order" or "hang" in x[2] or "callraised" in x[2] or "plainret:None" not in x[2] and x[0] == "plain"]
+        print(f"replay paused owner loop: {rows}: {'FAILS' if bad else 'ok'}")
         if bad:
             print(f"VIOLATION property={ctx.pid} replay=replay")
         return 1 if bad else 0
